@@ -357,7 +357,7 @@ func ToAny(t *Tree, numbersAsStrings bool) any {
 		if numbersAsStrings {
 			return t.Str
 		}
-		if i, err := strconv.ParseInt(t.Str, 10, 64); err == nil {
+		if i, err := strconv.ParseInt(t.Str, 10, 64); err == nil && t.Str != "-0" {
 			return i
 		}
 		f, err := strconv.ParseFloat(t.Str, 64)
